@@ -29,6 +29,16 @@ def main(tier):
     if tier == 'thorough':
         U += [('c', by['F3'][500:512]), ('d', by['F4'][100:112]), ('e', by['F6'][400:412])]
     texts = {n: progrun.unit_text((0, c)) + WARN for n, c in U}
+    # documentation comments: before a declaration (+++), after it (++), both (they are merged), of varying lengths
+    from vlib import progspace
+    ops = []
+    for i in range(16):
+        pre = '\t+++ Operation number %d%s.\n' % (i, ' of the counter' * (i % 5)) if i % 4 != 3 else ''
+        post = '\t\t++ Note %d%s.\n' % (i, ', see above' * (i % 3)) if i % 4 != 2 else ''
+        ops.append('%s\tvop%d: %% -> %%;\n%s' % (pre, i, post))
+    texts['doc'] = progspace.PRELUDE + '+++ A domain whose exports carry comments before and after.\nVDoc: with {\n\tvmk: MachineInteger -> %;\n\tvval: % -> MachineInteger;\n' + ''.join(ops) + \
+        '} == add {\n\tRep == MachineInteger; import from Rep;\n\tvmk(n: MachineInteger): % == per n;\n\tvval(x: %): MachineInteger == rep x;\n' + \
+        ''.join('\tvop%d(x: %%): %% == per(rep x + %d);\n' % (i, i) for i in range(16)) + '}\nimport from VDoc, MachineInteger;\npIMI("K0:", vval vop3 vop5 vmk 1);\n' + WARN
 
     def compile_in(d, names, opts=(), env=None, norand=True, cwd=None, q='-Q2'):
         for n in names:
